@@ -1,13 +1,13 @@
-//! Seams S3 and S4 - wall clock and process environment. rssl reads neither today; a compile that
+//! Seams S7 and S8 - wall clock and process environment. rssl reads neither today; a compile that
 //! starts to (a "generated at" header, a diagnostic clipped to $COLUMNS) stops being a function
 //! of its inputs, and the only way to see that in one process is to own both.
 //!
-//! S3: `clock_gettime` is interposed like `getrandom`. A task thread reads a simulated clock: a
+//! S7: `clock_gettime` is interposed like `getrandom`. A task thread reads a simulated clock: a
 //! base derived from its hash key (so two executions of one scenario never share it) that jumps
 //! by a little over a second on every read. Harness threads (no base set) get the real clock by
 //! raw system call, so watchdogs and wall-time accounting are unaffected.
 //!
-//! S4: before the task threads of an execution start, a dozen well-known variables are set to
+//! S8: before the task threads of an execution start, a dozen well-known variables are set to
 //! values derived from the execution's key (or removed).
 
 use std::cell::Cell;
